@@ -502,3 +502,120 @@ Section Sub.
         intros HN _. apply add_child_none; assumption.
   Qed.
 End Sub.
+
+(* ------------------------------------------------------------------ *)
+(* histories                                                           *)
+
+Section Hist.
+  Variable sub : nat -> pstr -> Z -> res unit.
+
+  Lemma subscribed_app_r subs more t : subscribed more t -> subscribed (subs ++ more) t.
+  Proof. unfold subscribed. rewrite map_app. intro H. apply in_or_app. right. exact H. Qed.
+  Lemma covered_app_r pfx subs more n c : child_covered pfx more n c -> child_covered pfx (subs ++ more) n c.
+  Proof. intros [A [B C]]. repeat split; apply subscribed_app_r; assumption. Qed.
+
+  Definition step_rel (pfx : pstr) (s s' : mstate) : Prop :=
+    (exists more, ms_subs s' = ms_subs s ++ more) /\
+    (forall n c, has_child (ms_net s) n c -> has_child (ms_net s') n c) /\
+    (forall n c, has_child (ms_net s') n c -> has_child (ms_net s) n c \/ child_covered pfx (ms_subs s') n c).
+
+  Lemma step_spec pfx s o : exists s', step sub pfx s o = Ok s' /\ step_rel pfx s s'.
+  Proof.
+    destruct o as [n|n c]; cbn [step].
+    - eexists. split; [reflexivity|]. unfold step_rel. cbn [ms_net ms_subs]. split; [|split].
+      + exists []. symmetry. apply app_nil_r.
+      + intros n' c' H. apply (proj2 (has_child_add_sensor (ms_net s) n n' c')). exact H.
+      + intros n' c' H. left. apply (proj1 (has_child_add_sensor (ms_net s) n n' c')). exact H.
+    - destruct (presentation_spec sub pfx (ms_net s) (length (ms_subs s)) n c) as [st' [l [-> [P1 [P2 _]]]]].
+      cbn [bind fst snd]. eexists. split; [reflexivity|]. unfold step_rel. cbn [ms_net ms_subs].
+      split; [exists l; reflexivity|]. split; [exact P1|].
+      intros n' c' H. destruct (P2 n' c' H) as [K|K]; [left; exact K|right; apply covered_app_r; exact K].
+  Qed.
+
+  Lemma run_ops_spec pfx ops : forall s, exists s', run_ops sub pfx s ops = Ok s' /\ step_rel pfx s s'.
+  Proof.
+    induction ops as [|o ops IH]; intro s; cbn [run_ops].
+    - exists s. split; [reflexivity|]. unfold step_rel. split; [exists []; symmetry; apply app_nil_r|].
+      split; [tauto|]. intros n c H. left. exact H.
+    - destruct (step_spec pfx s o) as [s1 [-> [[m1 M1] [A1 B1]]]]. cbn [bind].
+      destruct (IH s1) as [s2 [-> [[m2 M2] [A2 B2]]]].
+      exists s2. split; [reflexivity|]. unfold step_rel. split; [|split].
+      + exists (m1 ++ m2). rewrite M2, M1, app_assoc. reflexivity.
+      + intros n c H. apply A2, A1, H.
+      + intros n c H. destruct (B2 n c H) as [K|K]; [|right; exact K].
+        destruct (B1 n c K) as [K1|K1]; [left; exact K1|right]. rewrite M2. apply covered_app. exact K1.
+  Qed.
+
+  Lemma start_ok pfx pers st0 ops : exists s, start sub pfx pers st0 ops = Ok s.
+  Proof.
+    unfold start. destruct (init_topics_spec sub pfx pers st0 0) as [l [-> _]]. cbn [bind].
+    destruct (run_ops_spec pfx ops (mkM st0 l)) as [s [-> _]]. eexists; reflexivity.
+  Qed.
+
+  Lemma start_cover pfx pers st0 ops s : start sub pfx pers st0 ops = Ok s ->
+    subscribed (ms_subs s) (presentation_topic pfx) /\
+    subscribed (ms_subs s) (internal_topic pfx) /\
+    (forall n c, has_child st0 n c -> has_child (ms_net s) n c) /\
+    (forall n c, has_child (ms_net s) n c ->
+       (pers = false /\ has_child st0 n c) \/ child_covered pfx (ms_subs s) n c).
+  Proof.
+    unfold start. destruct (init_topics_spec sub pfx pers st0 0) as [l [-> M]]. cbn [bind].
+    destruct (run_ops_spec pfx ops (mkM st0 l)) as [s' [-> [[more E] [A B]]]]. intro H. inversion H; subst s'; clear H.
+    cbn [ms_net ms_subs] in *.
+    assert (forall t, In t (init_topic_literals ++ (if pers then restored_topics st0 else [])) ->
+                      subscribed (ms_subs s) (pfx ++ t)) as S.
+    { intros t Ht. rewrite E. apply subscribed_app. unfold subscribed. rewrite M. apply map_app_pfx_in. exact Ht. }
+    split; [apply (S (presentation_topic [])); apply in_or_app; left; rewrite init_literals; simpl; tauto|].
+    split; [apply (S (internal_topic [])); apply in_or_app; left; rewrite init_literals; simpl; tauto|].
+    split; [exact A|].
+    intros n c H. destruct (B n c H) as [K|K]; [|right; exact K].
+    destruct pers; [right|left; split; [reflexivity|exact K]].
+    destruct (restored_topics_cover st0 n c K) as [R1 [R2 R3]].
+    repeat split.
+    - apply (S (child_topic [] n c 1)). apply in_or_app. right. exact R1.
+    - apply (S (child_topic [] n c 2)). apply in_or_app. right. exact R2.
+    - apply (S (stream_topic [] n)). apply in_or_app. right. exact R3.
+  Qed.
+
+  Lemma init_no_persistence pfx st k l : init_topics sub pfx false st k = Ok l ->
+    map fst l = [presentation_topic pfx; internal_topic pfx].
+  Proof.
+    destruct (init_topics_spec sub pfx false st k) as [l' [-> M]]. intro H. inversion H; subst l'; clear H.
+    rewrite M, app_nil_r, init_literals. reflexivity.
+  Qed.
+
+  Lemma present_known pfx s n c : has_node (ms_net s) n = true -> c <> system_child_id ->
+    exists s', step sub pfx s (Present n c) = Ok s' /\ has_child (ms_net s') n c /\
+               (has_child (ms_net s) n c \/ child_covered pfx (ms_subs s') n c).
+  Proof.
+    intros HN HC. cbn [step].
+    destruct (presentation_spec sub pfx (ms_net s) (length (ms_subs s)) n c) as [st' [l [-> [P1 [P2 P3]]]]].
+    cbn [bind fst snd]. eexists. split; [reflexivity|]. cbn [ms_net ms_subs]. split; [exact (P3 HN HC)|].
+    destruct (P2 n c (P3 HN HC)) as [K|K]; [left; exact K|right; apply covered_app_r; exact K].
+  Qed.
+End Hist.
+
+Lemma cover_pers sub pfx st0 ops s : start sub pfx true st0 ops = Ok s ->
+  subscribed (ms_subs s) (presentation_topic pfx) /\
+  subscribed (ms_subs s) (internal_topic pfx) /\
+  (forall n c, has_child st0 n c -> has_child (ms_net s) n c) /\
+  (forall n c, has_child (ms_net s) n c -> child_covered pfx (ms_subs s) n c).
+Proof.
+  intro H. destruct (start_cover sub pfx true st0 ops s H) as [A [B [C D]]].
+  repeat (split; [assumption|]). intros n c K. destruct (D n c K) as [[E _]|E]; [discriminate|exact E].
+Qed.
+
+Lemma cover_nopers sub pfx st0 ops s : start sub pfx false st0 ops = Ok s ->
+  subscribed (ms_subs s) (presentation_topic pfx) /\
+  subscribed (ms_subs s) (internal_topic pfx) /\
+  (forall n c, has_child st0 n c -> has_child (ms_net s) n c) /\
+  (forall n c, has_child (ms_net s) n c -> has_child st0 n c \/ child_covered pfx (ms_subs s) n c).
+Proof.
+  intro H. destruct (start_cover sub pfx false st0 ops s H) as [A [B [C D]]].
+  repeat (split; [assumption|]). intros n c K. destruct (D n c K) as [[_ E]|E]; [left|right]; exact E.
+Qed.
+
+Lemma hsub_ok_slash sub (pfx : pstr) k topics :
+  Forall (fun t => mem_N 47 (pfx ++ t) = true) topics ->
+  exists l, handle_subscription sub pfx k topics = Ok l /\ map fst l = map (app pfx) topics.
+Proof. intro F. apply hsub_ok. exact F. Qed.
